@@ -471,9 +471,9 @@ func c16FillShares(r *c16Rule) bool {
 }
 
 func genC16(w *bufio.Writer, rng *hx.Rng, tier string) {
-	nSmallLen, nRand, nEpoch, nX := 3, 700, 150, 4
+	nSmallLen, nRand, nEpoch, nX := 3, 2000, 300, 5
 	if tier == "thorough" {
-		nSmallLen, nRand, nEpoch, nX = 4, 12000, 2500, 40
+		nSmallLen, nRand, nEpoch, nX = 4, 40000, 6000, 60
 	}
 	genC16Small(w, nSmallLen)
 	for i := 0; i < nRand; i++ {
